@@ -55,7 +55,7 @@ def rand_parent(rng):
     return "P:%s:%s:%d:%d:%s:%s" % (hx(key), hx(chain), depth, index, t, fp), k, chain, depth
 
 
-def cases(rng, tier):
+def _cases_main(rng, tier):
     n = 60 if tier == "quick" else 5000
     # BIP32 test vector 1 & 3 seeds through master
     for seed in ("000102030405060708090a0b0c0d0e0f",
@@ -97,6 +97,28 @@ def cases(rng, tier):
     for i in (2 ** 32, 2 ** 32 + 1, 2 ** 40):
         spec, k, chain, depth = rand_parent(rng)
         yield "ckd %s %d -" % (spec, i), "index-overflow"
+
+
+def collision_cases(rng, tier, neuter_fn=None):
+    """sibling parents whose public keys share the 4-byte fingerprint, same chain code, same indexes, one process"""
+    pairs = common.fp_pairs()
+    pairs = pairs[:4] if tier == "quick" else pairs
+    for ka, kb in pairs:
+        chain = hx(bytes(rng.getrandbits(8) for _ in range(32)))
+        t = rng.choice("01")
+        idxs = [0, 5, 2 ** 31 - 1] + ([] if neuter_fn else [2 ** 31, 2 ** 32 - 1])
+        for i in idxs:
+            for k in (ka, kb, ka):
+                spec = "P:%s:%s:0:0:%s:none" % (hx(k.to_bytes(32, "big")), chain, t)
+                if neuter_fn:
+                    spec = neuter_fn(spec, k)
+                yield "ckd %s %d -" % (spec, i), "fp-collision-siblings"
+        path = [rng.choice(idxs) for _ in range(3)]
+        for k in (ka, kb):
+            spec = "P:%s:%s:0:0:%s:none" % (hx(k.to_bytes(32, "big")), chain, t)
+            if neuter_fn:
+                spec = neuter_fn(spec, k)
+            yield "ckd %s %s -" % (spec, impl.lst(str, path)), "fp-collision-path"
 
 
 def nontrivial(line, out):
@@ -175,3 +197,8 @@ def literal_ops(lit):
     yield "ckd %s %d -" % (spec, lit)
     if 1 <= lit < N:
         yield "ckd P:%s:%s:0:0:0:none 1,2147483649 -" % (hx(lit.to_bytes(32, "big")), hx(bytes(32)))
+
+
+def cases(rng, tier):
+    yield from _cases_main(rng, tier)
+    yield from collision_cases(rng, tier)
